@@ -66,6 +66,8 @@ class Prop:
             out.faults["dispose"] += 1
         if len(list(rec.all_recorders())) > 1:
             out.probes["inner_recorders"] += 1
+        if run.cut_short:
+            out.probes["run_cut_short_by_work_budget"] += 1
         if sc.get("as_observer"):
             out.probes["subscribed_as_observer_object"] += 1
         if run.build_error is not None:
